@@ -2,6 +2,7 @@ import OpenFecVerif.Model.TabCheck
 import OpenFecVerif.Gen.Rand
 import OpenFecVerif.Gen.Blocking
 import OpenFecVerif.Gen.Popcount
+import OpenFecVerif.Gen.Macros
 import OpenFecVerif.Model.Api
 import OpenFecVerif.Model.Kernels
 import OpenFecVerif.Model.Dense
@@ -246,6 +247,11 @@ def step (st : DrvState) (line : String) : DrvState × String :=
   | ["popcnt", x] => match nat? x with
       | some v => (st, s!"ok p3={Gen.of_popcount_3 v} h32={Gen.of_hweight32 (v % 4294967296)} naive={Gen.of_hweight32_naive (v % 4294967296)}")
       | none => (st, "bad-op")
+  | ["macro", w, i] => match nat? w, nat? i with
+      | some w, some i =>
+        let w := w % 4294967296; let i := i % 4294967296
+        (st, s!"ok get={Gen.vm_getbit w (i % 32)} set1={Gen.vm_setbit1 w (i % 32)} set0={Gen.vm_setbit0 w (i % 32)} wi={Gen.vm_word_index i} bi={Gen.vm_bit_index i} nw={Gen.vm_words_for i}")
+      | _, _ => (st, "bad-op")
   | ["kern", name, size, count, _, _, c, seed] => match nat? size, nat? count, nat? c, nat? seed with
       | some size, some count, some c, some seed => (st, Kern.run name size count c seed)
       | _, _, _, _ => (st, "bad-op")
